@@ -111,6 +111,34 @@ Theorem C04_statement_classification_total : forall st, classify st <> SPanic.
 Proof. exact classify_no_panic. Qed.
 Print Assumptions C04_statement_classification_total.
 
+(** the braces of a rule (repairs 631953a: GRLParser::parse_multiple_rules / parse_single_rule now use find_outside_strings):
+    whatever the string literals of the rule contain, the rule block ends at the first `}` written outside a literal and the
+    attributes end at the first `{` written outside a literal - [p] is everything written before that brace *)
+Theorem C04_rule_block_ends_at_the_written_brace : forall p rest, piece_ok 125 p ->
+  find_outside (p ++ 125 :: rest) [125] = Some (ExprShape.blen p).
+Proof. intros p rest H. exact (brace_found_after_piece 125 p rest eq_refl H). Qed.
+Print Assumptions C04_rule_block_ends_at_the_written_brace.
+
+Theorem C04_attributes_end_at_the_written_brace : forall p rest, piece_ok 123 p ->
+  find_outside (p ++ 123 :: rest) [123] = Some (ExprShape.blen p).
+Proof. intros p rest H. exact (brace_found_after_piece 123 p rest eq_refl H). Qed.
+Print Assumptions C04_attributes_end_at_the_written_brace.
+
+(** the when / then split (repair fded141, Model/GrlSplit.v split_when_then, compared with the code through a hook on every
+    generated body): a string literal of the conditions is opaque to the search for the `then` keyword - the scan leaves it as
+    it entered it, whatever the literal contains (` then `, braces, the other quote character) *)
+Theorem C04_then_inside_a_literal_is_not_the_keyword : forall x content rest acc first,
+  is_quote x = true -> ~ In x content ->
+  scan_then (literal x content ++ rest) None acc first = scan_then rest None (rev (literal x content) ++ acc) false.
+Proof. exact scan_then_through_literal. Qed.
+Print Assumptions C04_then_inside_a_literal_is_not_the_keyword.
+
+(** the documented witness of the former finding: ` when X.a == "now then go" then X.b = 2; ` *)
+Example C04_when_then_example :
+  split_when_then [32;119;104;101;110;32;88;46;97;32;61;61;32;34;110;111;119;32;116;104;101;110;32;103;111;34;32;116;104;101;110;32;88;46;98;32;61;32;50;59;32]
+  = Some ([88;46;97;32;61;61;32;34;110;111;119;32;116;104;101;110;32;103;111;34], [88;46;98;32;61;32;50;59;32]).
+Proof. vm_compute. reflexivity. Qed.
+
 (** non-vacuity: `X.b = "a;b"; Log("x, y = z", 1); X.c += 'it;s';` - three statements, an assignment, a call, an append *)
 Example C04_split_example :
   parse_then [88;46;98;32;61;32;34;97;59;98;34;59;32;76;111;103;40;34;120;44;32;121;32;61;32;122;34;44;32;49;41;59;32;88;46;99;32;43;61;32;39;105;116;59;115;39;59]
